@@ -46,12 +46,12 @@ pub fn sweep_cases(base: u64, index: u64, st: &mut GenStats) -> (Val, Vec<Case>)
                 out.push(Case::Fmt(base_case.clone()));
                 for sticky in [false, true] {
                     for k in 0..nchunks {
-                        out.push(Case::Fmt(FmtCase { sink: SinkPlan { fail_at_chunk: Some(k), capacity: None, sticky }, ..base_case.clone() }));
+                        out.push(Case::Fmt(FmtCase { sink: SinkPlan { fail_at_chunk: Some(k), capacity: None, sticky, reentrant_hi: None }, ..base_case.clone() }));
                     }
                     let step = (nbytes / 120).max(1);
                     let mut cap = 0;
                     while cap < nbytes {
-                        out.push(Case::Fmt(FmtCase { sink: SinkPlan { fail_at_chunk: None, capacity: Some(cap), sticky }, ..base_case.clone() }));
+                        out.push(Case::Fmt(FmtCase { sink: SinkPlan { fail_at_chunk: None, capacity: Some(cap), sticky, reentrant_hi: None }, ..base_case.clone() }));
                         cap += step;
                     }
                 }
@@ -74,7 +74,7 @@ pub fn sweep_cases(base: u64, index: u64, st: &mut GenStats) -> (Val, Vec<Case>)
     // ---- formatting, fault-free: every precision 0..=64 and a few large ones, every trait and flag
     for tr in [Tr::Display, Tr::LowerExp, Tr::UpperExp] {
         for plus in [false, true] {
-            for p in (0usize..=64).chain([100, 127, 128, 255, 256, 257, 511, 512, 1000, 1100, 3000, 30_000]) {
+            for p in (0usize..=64).chain([100, 127, 128, 255, 256, 257, 511, 512, 1000, 1100, 3000, 30_000, 32_767, 32_768, 65_534]) {
                 out.push(Case::Fmt(FmtCase { hi, lo, tr, plus, prec: Some(p), sink: SinkPlan::default(), io: None, flags: None }));
             }
         }
